@@ -13,7 +13,7 @@ from pytezos.crypto.encoding import base58_encode
 from pytezos.crypto.key import blake2b_32
 from pytezos.michelson.tags import prim_tags
 
-prim_int = {v[0]: k for k, v in prim_tags.items()}
+prim_int = {v[0]: k for k, v in prim_tags.items() if v != b'\xee'}  # 0xee: dummy tag of non-protocol helpers
 
 
 def get_tag(args_len: int, annots_len: int) -> bytes:
